@@ -37,12 +37,12 @@ type Violation struct {
 
 // Obs is what the monitors observed while executing one case.
 type Obs struct {
-	Evals      int              // engine calls made
-	NonTrivial []uint64         // hashes of the distinct non-trivial sub-cases exercised
-	Cells      map[string]int   // coverage cells hit (property specific)
-	Counters   map[string]int64 // property specific observations (hook hits, bytes, ...)
-	Viol       []Violation
-	Sample     any // optional: a written-out description of this case for the evidence file
+	Evals        int              // engine calls made
+	NonTrivial   []uint64         // hashes of the distinct non-trivial sub-cases exercised
+	Cells        map[string]int   // coverage cells hit (property specific)
+	Counters     map[string]int64 // property specific observations (hook hits, bytes, ...)
+	Viol         []Violation
+	Sample       any    // optional: a written-out description of this case for the evidence file
 	Inconclusive string // non-empty: why this case could not be decided
 }
 
@@ -87,15 +87,15 @@ type Prop interface {
 
 // Meta carries optional per-property settings.
 type Meta struct {
-	Level        string   // evidence level, default exploration
-	Exhaustive   func(ctx Ctx) bool
-	Race         bool     // run the worker built with -race (quick tier)
-	RaceThorough bool     // run with -race in the thorough tier only
-	Workers      int      // 0 = default (16)
-	Isolate      bool     // trace every case (begin marker flushed before the engine is entered)
-	MemKB        int      // ulimit -v for the worker; 0 = default
-	TimeoutS     func(ctx Ctx) int
-	Assumptions  []string
+	Level         string // evidence level, default exploration
+	Exhaustive    func(ctx Ctx) bool
+	Race          bool // run the worker built with -race (quick tier)
+	RaceThorough  bool // run with -race in the thorough tier only
+	Workers       int  // 0 = default (16)
+	Isolate       bool // trace every case (begin marker flushed before the engine is entered)
+	MemKB         int  // ulimit -v for the worker; 0 = default
+	TimeoutS      func(ctx Ctx) int
+	Assumptions   []string
 	MinNonTrivial func(ctx Ctx) int // floor below which a run is inconclusive
 	// Finish is called in the worker after the last case of the shard (e.g. race-log collection)
 	Finish func(ctx Ctx, o *Obs)
